@@ -445,6 +445,15 @@ class TypeGen:
                 cd["aliaser"] = pick(d, ["upper", "pfx"])
             if cfg.get("methods") and not for_flatten and chance(d, 0.35):
                 cd["methods"] = [m for m in (self.method(cd, fields, idx) for _ in range(d(st.integers(1, 2)))) if m]
+            if cfg.get("class_validators") and not for_flatten and not params and chance(d, 0.6):
+                # @validator methods, each reading one int / str field and refusing one value (13 / "abc")
+                vc = [f for f in fields if f.get("agg") is None and f.get("kind", "normal") == "normal" and not (f.get("skip") or {}).get("de")
+                      and not f.get("fconv") and not f.get("none_as_undefined") and _val_base(f["t"]) is not None]
+                if vc:
+                    chosen = []
+                    for f in vc[:2] if chance(d, 0.3) else [pick(d, vc)]:
+                        chosen.append({"name": "chk_" + f["n"], "field": f["n"], "bad": "abc" if _val_base(f["t"]) == "str" else 13})
+                    cd["validators"] = chosen
             if cfg["dep_req"] and chance(d, 0.25):
                 cands = [f["n"] for f in fields if f.get("agg") is None and f.get("kind", "normal") == "normal"
                          and f.get("default") is not None and not f.get("required") and not (f.get("skip") or {}).get("de")]
@@ -756,6 +765,21 @@ def valid(draw, prog: dict, t: dict, dyn: str = "id", fuel: int = 3, c: Optional
     raise AssertionError(k)
 
 
+def _val_base(t: dict) -> Optional[str]:
+    """How a class validator `self.f == 13` / `== "abc"` can see the field: its primitive type (possibly under Annotated
+    constraints or Optional), "other" for containers and objects (never equal), None for types whose values may compare equal to
+    the refused value in ways the model does not follow (Any, unions, enums, literals, NewTypes, converted types)."""
+    while t["k"] in ("ann", "opt"):
+        if t.get("val"):
+            return None
+        t = t["of"]
+    if t["k"] in ("int", "str", "float"):
+        return t["k"]
+    if t["k"] in ("list", "set", "frozenset", "vartuple", "tuple", "map", "cls", "bool", "none"):
+        return "other"
+    return None
+
+
 def valid_object(draw, prog, t, dyn, fuel, stack) -> dict:
     cd = prog["classes"][t["i"]]
     if cd is None or t["i"] in stack:
@@ -785,6 +809,14 @@ def valid_object(draw, prog, t, dyn, fuel, stack) -> dict:
             m = valid(draw, prog, ft, dyn, fuel, f.get("c"), stack)
             for i, (_, v) in enumerate(list(m.items())[: len(EXTRA_KEYS)]):
                 out[EXTRA_KEYS[i]] = v
+    for v in cd.get("validators") or []:
+        fv = next(f for f in fields if f["n"] == v["field"])
+        key = M.ext_name(fv, cd, dyn)
+        if key in out:
+            if _BOUNDARY[0] and _val_base(fv["t"]) != "other" and chance(draw, 0.5):
+                out[key] = v["bad"]  # (data_for "boundary") the value the class validator refuses
+            elif not _BOUNDARY[0] and isinstance(out[key], (int, float, str)) and out[key] == v["bad"] and not isinstance(out[key], bool):
+                out[key] = 12 if v["bad"] == 13 else "ab"
     for a, deps in (cd.get("dep_req") or {}).items():
         if _BREAK_DEP[0]:
             # (data_for "dep_violation") the requiring field is there - well-typed or not - and what it requires is not
@@ -962,6 +994,14 @@ def data_for(draw, prog: dict, t: dict, dyn: str = "id", mix=(35, 30, 15, 20)):
             return valid(draw, prog, t, dyn), "boundary"
         finally:
             _BOUNDARY[0] = False
+    if any(cd and cd.get("validators") for cd in prog["classes"]) and chance(draw, 0.15):
+        # a conforming datum with one property nobody declares, in one of its objects: the only error of that object
+        d = valid(draw, prog, t, dyn)
+        objs = [p_ for p_ in paths(d) if isinstance(get_at(d, p_), dict)]
+        if objs:
+            p_ = pick(draw, objs)
+            return set_at(d, p_, dict(get_at(d, p_), zz=pick(draw, [0, "a", None]))), "unexpected_only"
+        return d, "valid"
     r = draw(st.integers(0, 99))
     if r < mix[0]:
         return valid(draw, prog, t, dyn), "valid"
